@@ -270,6 +270,15 @@ def bounded_hof(tier, seed):
         ('fold-left(1 to 3, (1, 2), function($a, $b) { ($a, $b) })', [1, 2, 1, 2, 3]), ('fold-right(1 to 3, (1, 2), function($a, $b) { ($a, $b) })', [1, 2, 3, 1, 2]),
         ('fold-left((), (7, 8), function($a, $b) { $a })', [7, 8]), ('sort((true(), false(), true()))', [False, True, True]),
         ("sort(('true', '0', '1', 'false'), (), xs:boolean#1)", ['0', 'false', 'true', '1']),
+        # the key function is applied to every item, also to items that are equal as Python values but distinct as XDM values
+        ("string-join(for $v in sort((2.0, 2, 1.0, 1), (), function($x) { if ($x instance of xs:integer) then 0 else 1 }) "
+         "return (if ($v instance of xs:integer) then 'i' else 'd') || $v, ' ')", 'i2 i1 d2 d1'),
+        ("string-join(for $v in sort((true(), 1, 0, false()), (), string#1) return (if ($v instance of xs:boolean) then 'b' else 'n') || $v, ' ')", 'n0 n1 bfalse btrue'),
+        ("string-join(for $v in sort((1, 1.0e0, 2), (), function($x) { if ($x instance of xs:double) then 0 else $x }) "
+         "return (if ($v instance of xs:double) then 'e' else 'i') || $v, ' ')", 'e1 i1 i2'),
+        ("array:size(array:sort([1, 1.0, true()], (), function($x) { if ($x instance of xs:boolean) then 0 else if ($x instance of xs:integer) then 1 else 2 })) , "
+         "array:sort([1.0, 1, true()], (), function($x) { if ($x instance of xs:boolean) then 0 else if ($x instance of xs:integer) then 1 else 2 })(1) instance of xs:boolean, "
+         "array:sort([1.0, 1, true()], (), function($x) { if ($x instance of xs:boolean) then 0 else if ($x instance of xs:integer) then 1 else 2 })(2) instance of xs:integer", [3, True, True]),
         ("string-join(for $v in sort((1, xs:double('NaN'), 0)) return string($v), ' ')", 'NaN 0 1'), ("string-join(for $v in sort((xs:double('NaN'), 2, 1)) return string($v), ' ')", 'NaN 1 2'),
     ]
     for expr, want in progs:
